@@ -137,7 +137,9 @@ fn main() {
     }
     let t0 = std::time::Instant::now();
 
-    let known = match monitor.as_str() {
+    // a panic that escapes a monitor's own guards: a library (or hook) site is a violation of the property being
+    // monitored (no conversion may panic on the inputs the monitors build); a harness site is a harness error
+    let known = ev::guarded(|| match monitor.as_str() {
         "C01" => mon_yuv::c01(&ctx),
         "C02" => mon_yuv::c02(&ctx),
         "C08" => mon_yuv::c08(&ctx),
@@ -162,8 +164,15 @@ fn main() {
         "C20dump" => mon_build::dump(&ctx),
         "replay" => replay(&ctx),
         _ => usage(),
-    };
-    let _ = known;
+    });
+    if let Err(msg) = known {
+        if msg.contains("/harness/src/") {
+            ev::inconclusive(&format!("the harness panicked: {msg}"));
+        } else {
+            let prop = if monitor.len() == 3 && monitor.starts_with('C') { monitor.clone() } else { ctx.arg("prop").unwrap_or("C13").to_string() };
+            ev::violation(format!("{prop}|panic|escaped|{}", ev::panic_site(&msg)), format!("the library panicked outside every guarded call of monitor {monitor}: {msg}"), J::obj().set("kind", "escaped-panic"));
+        }
+    }
 
     let wall = t0.elapsed().as_secs_f64();
     let hooks = ev::hooks_json();
